@@ -9,6 +9,7 @@ import (
 	"encoding/json"
 	"fmt"
 	"os"
+	"regexp"
 	"strings"
 
 	"github.com/go-gts/gts"
@@ -161,7 +162,11 @@ func makeSeq(m J) gts.Sequence {
 		fields := baseFields(strings.ToUpper(asStr(m["name"])), topo)
 		if refs := asList(m["refs"]); refs != nil {
 			for i, r := range refs {
-				fields.References = append(fields.References, seqio.Reference{Number: i + 1, Info: asStr(r), Authors: "A,B.", Title: "T", Journal: "J"})
+				info := asStr(r)
+				if m, ok := r.(map[string]interface{}); ok {
+					info = asStr(m["info"])
+				}
+				fields.References = append(fields.References, seqio.Reference{Number: i + 1, Info: info, Authors: "A,B.", Title: "T", Journal: "J"})
 			}
 		}
 		if asStr(m["store"]) == "parsedorigin" {
@@ -252,7 +257,8 @@ func observe(seq gts.Sequence, withExt bool) J {
 	if info, ok := seq.Info().(seqio.GenBankFields); ok {
 		refs := make([]interface{}, len(info.References))
 		for i, r := range info.References {
-			refs[i] = J{"num": r.Number, "info": r.Info}
+			ranges, ranged := parseRefRanges(r.Info)
+			refs[i] = J{"num": r.Number, "info": r.Info, "ranged": ranged, "ranges": ranges}
 		}
 		st["refs"] = refs
 		if seg, ok := info.Region.(gts.Segment); ok {
@@ -347,6 +353,7 @@ type seqRunner struct {
 	recs   map[string]gts.Sequence
 	order  []string
 	pure   bool // purity mode: arguments are passed as they are and probed afterwards
+	shared bool // arguments are passed as they are (no probes)
 	ext    bool
 	caseID string
 }
@@ -366,7 +373,7 @@ func (r *seqRunner) arg(name string) gts.Sequence {
 	if !ok {
 		return nil
 	}
-	if r.pure {
+	if r.pure || r.shared {
 		return seq
 	}
 	return deepCopy(seq)
@@ -440,6 +447,7 @@ func (r *seqRunner) runCase(c J) {
 	r.recs = map[string]gts.Sequence{}
 	r.order = nil
 	r.pure = asBool(c["pure"])
+	r.shared = asBool(c["shared"])
 	r.ext = !asBool(c["noext"])
 	r.emit(J{"ev": "case"})
 	for _, x := range asList(c["recs"]) {
@@ -590,4 +598,23 @@ func decodeCase(line []byte) J {
 
 func emptyState() J {
 	return J{"res": []int{}, "len": 0, "topo": "na", "feats": []interface{}{}, "refs": []interface{}{}, "region": []int{}}
+}
+
+var refInfoRe = regexp.MustCompile(`^\((bases|residues) (\d+ to \d+(; \d+ to \d+)*)\)$`)
+
+// parseRefRanges tokenises "(bases a to b; c to d)" into 0-based half-open ranges.
+func parseRefRanges(info string) ([]interface{}, bool) {
+	out := []interface{}{}
+	m := refInfoRe.FindStringSubmatch(info)
+	if m == nil {
+		return out, false
+	}
+	for _, part := range strings.Split(m[2], "; ") {
+		var a, b int
+		if _, err := fmt.Sscanf(part, "%d to %d", &a, &b); err != nil {
+			return []interface{}{}, false
+		}
+		out = append(out, []int{a - 1, b})
+	}
+	return out, true
 }
